@@ -79,11 +79,14 @@ def cases(tier, seed):
         names = [f'n{i + 1}' for i in range(N)]
         for order in itertools.permutations(names):
             for depth in ((0, 1) if tier == 'quick' else (0, 1, 2)):
-                for tmix in ('same', 'mixed'):
-                    if tmix == 'mixed' and N < 3:
+                for tmix in ('same', 'mixed', 'mixed_generic'):
+                    if tmix != 'same' and N < 3:
                         continue
-                    types = {n: ('qo' if (tmix == 'mixed' and n == 'n2') else 'po') for n in names}
+                    types = {n: ('qo' if (tmix != 'same' and n == 'n2') else 'po') for n in names}
                     spec, paths = make(list(order), depth, types)
+                    if tmix == 'mixed_generic':
+                        # every node template carries the same generic name although their operators differ
+                        spec['tpl_names'] = {t: 'pop' for t in spec['node_tpls']}
                     for tag, outs, exp in requests(list(order), paths, types, depth):
                         for vec in (False, True):
                             out.append({'spec': spec, 'paths': paths, 'types': types, 'tag': tag, 'outputs': outs,
@@ -146,7 +149,7 @@ def run_gvp(case):
 def describe(tier, seed):
     return {'rule': 'circuits of 2-3 (thorough 4) decaying nodes with pairwise different rate and initial value (every '
                     'trajectory unique, closed-form euler iterates), hierarchy depth 0-1 (2), ALL permutations of the node '
-                    'declaration order, a second node type that breaks the vectorization group; every output request form '
+                    'declaration order, a second node type that breaks the vectorization group (with unique and with one generic template name); every output request form '
                     '(dict/list, single, wildcard at each level, several keys, single+wildcard mixed) x vectorize; each '
                     'DataFrame column must hold the trajectory of exactly the node named by its label and the set of columns '
                     'must equal the set of addressed variables; non-trivial = all',
